@@ -20,7 +20,8 @@ INTERESTING = [0x00, 0x01, 0x02, 0x03, 0x04, 0x05, 0x14, 0x20, 0x4b, 0x4c, 0x4d,
                0xff, 0x10, 0x11, 0x80, 0x81, 0x16, 0x22, 0x28]
 
 INT_TOKENS = sorted(set(list(range(-2, 19)) + [127, 128, 129, 255, 256, 32767, 32768, 65535, 65536, 2 ** 31 - 1, 2 ** 31, 2 ** 32, 2 ** 63,
-                                               -127, -128, -129, -255, -256, -32767, -32768, -2 ** 31, -2 ** 31 + 1, -2 ** 63]))
+                                               -127, -128, -129, -255, -256, -32767, -32768, -2 ** 31, -2 ** 31 + 1, -2 ** 63,
+                                               2 ** 591, 2 ** 599, 2 ** 600, -2 ** 607, 2 ** 2031, 2 ** 2039, -2 ** 2040, 2 ** 4000]))
 DATA_TOKENS = ([b''] + [bytes([v]) for v in list(range(0x11)) + [0x80, 0x81, 0xff]] +
                [C.fill(n, 1) for n in (2, 74, 75, 76, 77, 254, 255, 256, 257, 520, 521, 65535, 65536)])
 
@@ -218,6 +219,9 @@ class Builder(Family):
             for t in libtoks:
                 CScript([t, t])                 # another script is built while the outer build is in progress
                 yield t
+        s5 = CScript(iter(libtoks))              # a one-shot iterator
+        if bytes(s5) != want:
+            raise Viol('CScript built from a one-shot iterator differs', want[:200], bytes(s5)[:200])
         s3 = CScript(gen())
         if bytes(s3) != want:
             raise Viol('CScript built from a generator that constructs other scripts while being consumed differs', want[:200], bytes(s3)[:200])
@@ -364,6 +368,10 @@ class PushBoundaries(Family):
                     yield p + b'\x4e' + declared.to_bytes(4, 'little') + C.fill(avail, 3)
             for k in range(4):
                 yield p + b'\x4e' + b'\x01' * k
+        # PUSHDATA4 whose length has a non-zero top byte: declared 2^24 with 70000 bytes available is truncated
+        yield b'\x4e\x00\x00\x00\x01' + C.fill(70000, 1)
+        yield b'\x4e\x01\x00\x00\x01' + C.fill(65536 + 5, 1)
+        yield b'\x4e\x00\x00\x01\x01' + C.fill(65536, 1)
 
     def check(self, b):
         return check_script_bytes(b), True
@@ -394,5 +402,31 @@ class LengthStructured(Family):
         return lab, lab not in ('plain', 'malformed') or 4 <= L <= 42
 
 
+class HugePushRoundTrip(Family):
+    """one push of 2^24 - 1 / 2^24 / 2^24 + 77 bytes: build, raw iteration, cooked iteration, rebuild"""
+    name = 'pushdata4_16MiB_roundtrip'
+    nontrivial_rule = 'every case'
+
+    def shards(self, tier):
+        return [(1 << 24) - 1, 1 << 24, (1 << 24) + 77]
+
+    def cases(self, shard, tier):
+        yield shard
+
+    def check(self, n):
+        from bitcoin.core.script import CScript, OP_CHECKSIG
+        data = C.fill(n, 5)
+        s = CScript([data, OP_CHECKSIG])
+        want = b'\x4e' + n.to_bytes(4, 'little') + data + b'\xac'
+        if bytes(s) != want:
+            raise Viol('CScript([%d-byte string, OP_CHECKSIG])' % n, want[:12], bytes(s)[:12])
+        ops = list(s.raw_iter())
+        if len(ops) != 2 or ops[0][0] != 0x4e or bytes(ops[0][1]) != data or ops[1][0] != 0xac or ops[1][2] != 5 + n:
+            raise Viol('raw_iter of a script with a %d-byte push' % n, [(0x4e, n, 0), (0xac, None, 5 + n)], [(o[0], None if o[1] is None else len(o[1]), o[2]) for o in ops][:4])
+        if bytes(CScript(list(s))) != want or s.GetSigOpCount(False) != 1 or not s.is_valid() or s.is_push_only():
+            raise Viol('rebuild / predicates of a script with a %d-byte push' % n, None, None)
+        return 'ok', True
+
+
 def families(tier):
-    return [NumInts(), NumBytes(), Builder(), ShortScripts(), PushBoundaries(), LengthStructured()]
+    return [NumInts(), NumBytes(), Builder(), HugePushRoundTrip(), ShortScripts(), PushBoundaries(), LengthStructured()]
